@@ -194,7 +194,7 @@ func notifyProgramsK(c *RunCtx, nq, nt int, distOnly bool) {
 				cfg.QK = Pick(r, QPers, QPersPrio, QDist, QDistPrio)
 			}
 			p.Explore(func(pl Plan) *Result { return epNotify(c, cfg) },
-				ExploreOpts{Base: 4, K: c.Q(3, 6), Funcs: anchoredOr(c, notifyFuncs), Pairs: c.Q(20, 120), MaxCases: c.Q(150, 2500)})
+				ExploreOpts{Base: 4, Noise: c.Q(20, 100), K: c.Q(3, 6), Funcs: anchoredOr(c, notifyFuncs), Pairs: c.Q(20, 120), MaxCases: c.Q(150, 2500)})
 		})
 	}
 }
